@@ -21,8 +21,10 @@ func main() {
 	seed := flag.Int64("seed", 0, "seed (only permutes nothing; recorded)")
 	deadline := flag.Duration("deadline", 0, "internal deadline")
 	replay := flag.String("replay", "", "replay file")
+	only := flag.String("only", "", "run only this scenario")
 	flag.Parse()
 	c := &props.Ctx{Prop: *prop, Tier: *tier, Shard: *shard, NShards: *nshards, Seed: *seed, Race: vsched.RaceBaton}
+	c.Only = *only
 	if *deadline > 0 {
 		c.Deadline = time.Now().Add(*deadline)
 	}
